@@ -10,6 +10,8 @@ import (
 
 	lime "github.com/takenet/lime-go"
 
+	"net"
+	"os"
 	"verif/harness/internal/core"
 	"verif/harness/internal/rig"
 )
@@ -139,6 +141,13 @@ func c20buildMux(kind int, table []string, log *c20log, errAt int) *lime.Envelop
 		i, pred := i, pred
 		herr := func(id string) error {
 			if i == errAt && c20class(id) == "E" {
+				// the kind of error does not matter: plain, a wrapped context error, a timeout
+				switch len(table) % 3 {
+				case 1:
+					return fmt.Errorf("handler failure (harness): %w", context.DeadlineExceeded)
+				case 2:
+					return &net.OpError{Op: "write", Net: "tcp", Err: os.ErrDeadlineExceeded}
+				}
 				return errors.New("handler failure (harness)")
 			}
 			return nil
